@@ -82,9 +82,14 @@ func rootLocal(f *eng.Fn, e ast.Expr) *types.Var {
 func runC01(p *eng.Prog, r *eng.Report, tier string) {
 	c := &cx{p, r, tier}
 	nf, call := negotiateSite(c, "C01.1")
+	firstParam := ""
 	if nf != nil {
-		c01NegotiateFeatures(c, nf, call)
+		firstParam = c01NegotiateFeatures(c, nf, call)
 	}
+	// C01.15: "the sole exception is STARTTLS on the FIRST features list" —
+	// the indicator handed to negotiateFeatures is true exactly until a list
+	// has been consumed (same rule as C02.2)
+	c02First(c, "C01.15", nf, firstParam)
 	c01StateWrites(c)
 	c01Read(c)
 	c01Write(c)
